@@ -19,6 +19,12 @@ def _root_name(e: ast.expr):
     return e.id if isinstance(e, ast.Name) else None
 
 
+def _is_chain(e: ast.expr) -> bool:
+    while isinstance(e, ast.Attribute):
+        e = e.value
+    return isinstance(e, ast.Name)
+
+
 def _is_fresh_value(v: ast.expr) -> bool:
     if isinstance(v, (ast.List, ast.Dict, ast.Set, ast.ListComp, ast.DictComp, ast.SetComp, ast.Tuple, ast.Constant,
                       ast.JoinedStr)):
@@ -52,6 +58,47 @@ def write_set(fn: ast.AST) -> List[Tuple[str, int, str]]:
                     (fresh if _is_fresh_value(n.value) else tainted).add(t.id)
     fresh -= tainted
     fresh -= params
+    # local aliases `name = a.b.c` (assigned once, a pure name / attribute chain): a write through the alias is
+    # described through what it stands for, so that introducing or renaming such a temporary changes nothing
+    counts: Dict[str, int] = {}
+    chains: Dict[str, ast.expr] = {}
+    for n in body_nodes:
+        tg: List[ast.expr] = []
+        if isinstance(n, ast.Assign):
+            tg = list(n.targets)
+        elif isinstance(n, (ast.AugAssign, ast.AnnAssign, ast.For, ast.AsyncFor)):
+            tg = [n.target]
+        elif isinstance(n, (ast.With, ast.AsyncWith)):
+            tg = [i.optional_vars for i in n.items if i.optional_vars is not None]
+        elif isinstance(n, ast.NamedExpr):
+            tg = [n.target]
+        for t in tg:
+            for x in ast.walk(t):
+                if isinstance(x, ast.Name):
+                    counts[x.id] = counts.get(x.id, 0) + 1
+        if isinstance(n, ast.Assign) and len(n.targets) == 1 and isinstance(n.targets[0], ast.Name) \
+                and _is_chain(n.value) and isinstance(n.value, ast.Attribute):
+            chains[n.targets[0].id] = n.value
+    aliases = {k: v for k, v in chains.items() if counts.get(k, 0) == 1 and k not in params}
+
+    def describe(e: ast.expr) -> str:
+        text = ast.unparse(e)
+        for _ in range(4):
+            root = _root_name(e)
+            if root is None or root not in aliases:
+                break
+            full = ast.unparse(aliases[root])
+            text = full + text[len(root):]
+            e = ast.parse(text, mode="eval").body
+        return text
+
+    def root_of(e: ast.expr):
+        for _ in range(4):
+            r = _root_name(e)
+            if r is None or r not in aliases:
+                return r
+            e = aliases[r]
+        return _root_name(e)
     out: List[Tuple[str, int, str]] = []
     for n in body_nodes:
         if isinstance(n, (ast.Global, ast.Nonlocal)):
@@ -64,12 +111,12 @@ def write_set(fn: ast.AST) -> List[Tuple[str, int, str]]:
         for t in targets:
             for tt in (t.elts if isinstance(t, (ast.Tuple, ast.List)) else [t]):
                 if isinstance(tt, (ast.Attribute, ast.Subscript)):
-                    root = _root_name(tt)
+                    root = root_of(tt)
                     if root is None or root not in fresh:
-                        out.append((ast.unparse(tt), n.lineno, "store"))
+                        out.append((describe(tt), n.lineno, "store"))
         if isinstance(n, ast.Call) and isinstance(n.func, ast.Attribute) and n.func.attr in MUTATORS:
-            root = _root_name(n.func.value)
-            recv = ast.unparse(n.func.value)
+            root = root_of(n.func.value)
+            recv = describe(n.func.value)
             if any(l in recv for l in LOGGER_NAMES):
                 continue
             if root is None or root not in fresh:
